@@ -313,6 +313,8 @@ def r8_version_independent_of_padding(ctx):
 
 
 def run(ctx):
+    from . import effects
+    effects.check_property(ctx, "C10")    # R10.E: no operation on shared protocol state outside the reviewed table
     from . import C02
     C02.r3_allocator(ctx)    # racing opens on one session get distinct ids (each verdict reaches its own open)
     r8_version_independent_of_padding(ctx)
